@@ -150,6 +150,7 @@ func (C18) Events(env world.Env, mm mc.Model) []string {
 	add("TransferName:%s:%s", others(m.NameOwner)[0], others(m.NameOwner)[1]) // by a non-owner
 	if m.Blocks < 3 {
 		add("NextBlock")
+		add("NextBlock300ms") // block times carry fractions of a second
 	}
 	if !m.Restarted {
 		for _, x := range c18Who {
@@ -184,8 +185,12 @@ func (C18) Apply(env world.Env, mm mc.Model, ev string) mc.Step {
 		return w.A(t).Bech
 	}
 	switch p[0] {
-	case "NextBlock":
-		if bp := env.NextBlock(6 * time.Second); bp != nil {
+	case "NextBlock", "NextBlock300ms":
+		dt := 6 * time.Second
+		if p[0] == "NextBlock300ms" {
+			dt = 300 * time.Millisecond
+		}
+		if bp := env.NextBlock(dt); bp != nil {
 			vs = append(vs, viol("no-panic", "block-panic", "%s", bp.Value))
 		}
 		m.Blocks++
